@@ -65,6 +65,10 @@ type tcase struct {
 	// Or: keys of statements that are as good as Key (which statement of a cycle of typedefs is
 	// named depends on where the cycle is entered).
 	Or []string `json:"or,omitempty"`
+	// Naming: the names the texts are handed to goyang under, when these are not Names (names.go).
+	// Positions are translated back to Names before anything is judged, and a file part that is
+	// not exactly a given name is a finding (BadFile).
+	Naming *naming `json:"naming,omitempty"`
 }
 
 func (c tcase) key() string {
@@ -143,7 +147,8 @@ type epos struct {
 }
 
 type verdict struct {
-	Errors    []string
+	Errors    []string // the messages, positions translated back to the names of the texts
+	Raw       []string // the messages as goyang wrote them
 	Expected  []string // the positions the marker addresses
 	At        []epos   // positions errors stand at
 	Named     bool     // some error of the expected class stands at an expected position
@@ -275,21 +280,29 @@ func runMode(c tcase, mode int, roots []int, variant int) (v verdict, crashed st
 	for _, n := range c.Names {
 		nameOf[n] = n
 	}
+	given := c.Names
+	nm := c.Naming
+	if nm != nil && len(nm.Given) == len(c.Names) {
+		given = nm.Given
+		nameOf = map[string]string{}
+		for i, n := range given {
+			nameOf[n] = c.Names[i]
+		}
+	}
+	var tr *translator
 	strip := func(s string) string {
-		return locRe.ReplaceAllStringFunc(s, func(m string) string {
-			sub := locRe.FindStringSubmatch(m)
-			if n, ok := nameOf[sub[1]]; ok {
-				return n + ":" + sub[2] + ":" + sub[3]
-			}
-			if v.BadFile == "" {
-				v.BadFile = fmt.Sprintf("%q in %q", sub[1], s)
-			}
-			return m
-		})
+		if tr == nil {
+			tr = newTranslator(nameOf) // (first use is after loading: nameOf is final)
+		}
+		out, bad := tr.translate(s)
+		if bad != "" && v.BadFile == "" {
+			v.BadFile = fmt.Sprintf("%q in %q", bad, s)
+		}
+		return out
 	}
 	if mode == inMemory {
 		for i := range c.Names {
-			if err := ms.Parse(c.Texts[i], c.Names[i]); err != nil {
+			if err := ms.Parse(c.Texts[i], given[i]); err != nil {
 				errs = append(errs, err)
 			}
 		}
@@ -303,12 +316,24 @@ func runMode(c tcase, mode int, roots []int, variant int) (v verdict, crashed st
 		// files are known to goyang under the path they were found at: <path entry>/<…>/<file>
 		nameOf = map[string]string{}
 		pathOf := make([]string, len(c.Names))
+		// (a naming puts the whole set below a directory of its own and names the subdirectories;
+		// where the file is read by its path the base name is decorated as well)
+		if nm != nil && nm.Root != "" {
+			dir = filepath.Join(dir, nm.Root)
+		}
 		for i := range c.Names {
 			sd := ""
 			if variant&1 == 1 {
 				sd = subdirs[(variant>>1+i)%len(subdirs)]
+				if nm != nil && len(nm.Dirs) == len(c.Names) {
+					sd = nm.Dirs[i]
+				}
 			}
-			pathOf[i] = filepath.Join(dir, sd, diskName(c.Names[i], c.Texts[i]))
+			base := diskName(c.Names[i], c.Texts[i])
+			if nm != nil && mode != readRoots && len(nm.Base) == len(c.Names) && nm.Base[i] != "" {
+				base = nm.Base[i]
+			}
+			pathOf[i] = filepath.Join(dir, sd, base)
 			nameOf[pathOf[i]] = c.Names[i]
 			os.MkdirAll(filepath.Dir(pathOf[i]), 0o755)
 			if err := os.WriteFile(pathOf[i], []byte(c.Texts[i]), 0o644); err != nil {
@@ -371,6 +396,7 @@ func runMode(c tcase, mode int, roots []int, variant int) (v verdict, crashed st
 		sort.Ints(v.Loaded)
 	}
 	for i, e := range errs {
+		v.Raw = append(v.Raw, e.Error())
 		errs[i] = errors.New(strip(e.Error()))
 	}
 	v.errs = errs
@@ -1272,6 +1298,16 @@ func main() {
 			fmt.Printf("--- %s\n%s", c.Names[i], c.Texts[i])
 		}
 		why := judge(c, v)
+		if c.Naming != nil {
+			plain := c
+			plain.Naming = nil
+			v0, crash0 := run(plain)
+			fmt.Printf("given names: %q\non disk: below %q, subdirectories %q, base names %q\nerrors as written: %q\nunder plain names: %q\n",
+				c.Naming.Given, c.Naming.Root, c.Naming.Dirs, c.Naming.Base, v.Raw, v0.Errors)
+			if crash0 == "" {
+				why = namedWhy(plain, v0, c, v, crash)
+			}
+		}
 		fmt.Printf("fault: %s key %s class %s\nexpected position: %v\nerrors: %q\nerror positions: %v\nverdict: %q crash: %q\n",
 			c.Fault, c.key(), c.Class, v.Expected, v.Errors, v.At, why, crash)
 		bad := crash != "" || why != ""
@@ -1314,7 +1350,9 @@ func main() {
 	distinct := lib.NewDistinct()
 	perKind := map[string]int64{}
 	classes := map[string]int64{}
-	var unfaulted, unfaultedErr int64
+	var unfaulted, unfaultedErr, named int64
+	namedPerKind := map[string]int64{}
+	namedBad := 0
 	type pending struct {
 		c tcase
 		v verdict
@@ -1365,6 +1403,30 @@ func main() {
 		if i%3 == 0 {
 			if fw := fileModes(r, *c, v, func(k string) { res.Count("loaded via "+k, 1) }); fw != "" {
 				res.AddDisagreement(lib.Disagreement{Kind: "spec", Input: c, Go: v.Errors, SpecVerdict: "violates", What: "files on disk: " + fw, Replay: c})
+			}
+		}
+		// the same set under source names with characters special to some layer (names.go): for a
+		// given fault kind the shapes rotate (step 3), so every kind meets the fmt verbs early
+		if namedBad < 50 {
+			rn := f.Rand(1<<24 + i)
+			cg := *c
+			cg.Naming = mkNaming(rn, (i/period)*3+kind, c.Names)
+			vg, gcrash := run(cg)
+			res.Count("named: "+namingKey(cg.Naming), 1)
+			named++
+			if c.Fault != "" {
+				namedPerKind[c.Fault]++
+			}
+			if why := namedWhy(*c, v, cg, vg, gcrash); why != "" {
+				namedBad++
+				res.AddDisagreement(lib.Disagreement{Kind: "spec", Input: cg, Go: vg.Raw, SpecVerdict: "violates",
+					What: "source names (" + cg.Naming.Label + "; given " + fmt.Sprintf("%q", cg.Naming.Given) + "): " + why, Replay: cg})
+			} else if i%6 == 1 {
+				if fw := fileModes(rn, cg, vg, func(k string) { res.Count("named: loaded via "+k, 1) }); fw != "" {
+					namedBad++
+					res.AddDisagreement(lib.Disagreement{Kind: "spec", Input: cg, Go: vg.Raw, SpecVerdict: "violates",
+						What: "source names (" + cg.Naming.Label + "), files on disk below " + fmt.Sprintf("%q / %q", cg.Naming.Root, cg.Naming.Dirs) + ": " + fw, Replay: cg})
+				}
 			}
 		}
 		if f.Driver != "" && !v.ParseFail {
@@ -1432,7 +1494,7 @@ func main() {
 	}
 	res.Evaluations = int64(n)
 	res.DistinctNontrivial = distinct.Len()
-	res.Rule = fmt.Sprintf("valid generated module sets (harness/gen, fault rate 0) with exactly one injected semantic fault of %d kinds (one or more per positioned error class: AST builder, entry layer, type layer incl. unknown type / prefix with local, own-prefixed, foreign-prefixed and undeclared-prefixed names in leaf, leaf-list, typedef, union member, typedef used by a leaf and deviate type, identity layer, deviation stage); the faulty statement is addressed by a unique marker, its true position comes from the generic parser, an error of the expected class must stand exactly there and none elsewhere; distinct_nontrivial = distinct faulted sets", len(fs))
+	res.Rule = fmt.Sprintf("valid generated module sets (harness/gen, fault rate 0) with exactly one injected semantic fault of %d kinds (one or more per positioned error class: AST builder, entry layer, type layer incl. unknown type / prefix with local, own-prefixed, foreign-prefixed and undeclared-prefixed names in leaf, leaf-list, typedef, union member, typedef used by a leaf and deviate type, identity layer, deviation stage); the faulty statement is addressed by a unique marker, its true position comes from the generic parser, an error of the expected class must stand exactly there and none elsewhere; every set is processed a second time under source names with characters special to some layer (%d shapes, rotating per fault kind: fmt verbs %%20 %%2F %%s %%d %%v %%%% %%[1]s %%*d and a trailing lone %% in directories and in the base name, blanks, @ # + & ; | * ? ~ $, quotes, brackets, backslash, non-ASCII, names of 600-3000 bytes, a labelled family with `:`; Modules.Parse under the given name, and for one set in six Modules.Read(path) / search path / yangentry.Parse below directories of such names): the file part of every position (leading, wrapped, mentioned, Location()) must be the given name byte for byte, and the marker oracle, the error records and the mentioned positions must be those of the plain-named run; distinct_nontrivial = distinct faulted sets", len(fs), len(shapes))
 	for k, v := range perKind {
 		res.Distribution["fault:"+k] = v
 	}
@@ -1440,6 +1502,15 @@ func main() {
 		res.Distribution["class:"+k] = v
 	}
 	res.Distribution["fault_kinds"] = int64(len(fs))
+	res.Distribution["named_sets"] = named
+	res.Distribution["named_shapes"] = int64(len(shapes))
+	minNamed := int64(-1)
+	for k := range perKind {
+		if n := namedPerKind[k]; minNamed < 0 || n < minNamed {
+			minNamed = n
+		}
+	}
+	res.Distribution["named_sets_per_fault_kind_min"] = minNamed
 	res.Distribution["unfaulted_sets"] = unfaulted
 	res.Distribution["unfaulted_sets_with_errors"] = unfaultedErr
 	res.Write(f.Out)
